@@ -35,7 +35,9 @@ func c10(r *core.Run) {
 
 	c11CacheCoherence(r, "B1", "store/badgerstore")
 	transF, ok1 := fieldByType(p, rel, "storeHandler", func(t types.Type) bool { return core.TypeName(t) == qual(rel, "Transformer") })
-	defF, ok2 := fieldByType(p, rel, "storeHandler", func(t types.Type) bool { return types.TypeString(t, nil) == "encoding/json.RawMessage" || types.TypeString(t, nil) == "interface{}" })
+	defF, ok2 := fieldByType(p, rel, "storeHandler", func(t types.Type) bool {
+		return types.TypeString(t, nil) == "encoding/json.RawMessage" || types.TypeString(t, nil) == "interface{}"
+	})
 	if !ok1 || !ok2 {
 		r.Unres("T1", "storeHandler.<transformer>/<default>", fmt.Sprintf("transformer field resolved=%v default field resolved=%v", ok1, ok2))
 		return
